@@ -124,11 +124,11 @@ def _task(task):
 
 
 def run(ctx):
-    ns = list(range(0, 14)) if ctx.quick else list(range(0, 24)) + [40]
+    ns = list(range(0, 14)) + [22, 25] if ctx.quick else list(range(0, 27)) + [40]
     tally = fan_out(_task, [{"ns": [n], "work": ctx.work} for n in ns], jobs=ctx.jobs, seed=ctx.seed, mem_gib=6.0)
     coverage = {
         "exhaustive": True,
-        "bound": (f"files of n = {ns[0]}..{ns[-1] if ctx.quick else 23}{'' if ctx.quick else ' and 40'} packets, each also with 3 and 7 trailing bytes of an incomplete packet; "
+        "bound": (f"files of n = {'0..13, 22, 25' if ctx.quick else '0..26 and 40'} packets, each also with 3 and 7 trailing bytes of an incomplete packet; "
                   "describe-packets on each; parse --packet i for every i in 0..n+1; parse without index"),
         "rule": "one evaluation = one CLI invocation through click's runner; distinct non-trivial = distinct (command, file, index) invocations",
     }
